@@ -327,6 +327,50 @@ func genBundle(r *R, opts FlatOpts, plus bool, thorough bool, force map[string]b
 					"q":    obj{"$ref": mkRef("", "definitions", "?")},
 					"b":    obj{"$ref": mkRef("", "definitions", "[]")},
 					"next": obj{"$ref": mkRef("", "definitions", "punctNode")}}}
+				if g.r.P(40) {
+					// a punctuation-only-named definition that HOLDS a $ref - to a $ref-free definition of the same document
+					// named like a root definition - and has two referrers; the colliding leaf has a shallower referrer too
+					rd := g.docs[0]
+					leaf := ""
+					for _, n := range ad.defNames {
+						for _, k := range rd.defNames {
+							if ad.refFree[n] && strings.EqualFold(k, n) && isPlainIdent(n) {
+								leaf = n
+							}
+						}
+					}
+					if leaf == "" {
+						for _, k := range rd.defNames {
+							free := isPlainIdent(k)
+							for _, d := range g.docs[1:] {
+								for _, n := range d.defNames {
+									if strings.EqualFold(k, n) {
+										free = false
+									}
+								}
+							}
+							if free {
+								leaf = k
+								ad.defNames = append(ad.defNames, leaf)
+								ad.refFree[leaf] = true
+								ad.defs[leaf] = obj{"type": "string", "minLength": 2}
+								break
+							}
+						}
+					}
+					if leaf != "" {
+						ad.defNames = append(ad.defNames, "??")
+						shape := obj{"type": "object", "properties": obj{"c": obj{"$ref": mkRef("", "definitions", leaf)}, "d": g.primitive()}}
+						if g.r.P(50) {
+							shape = obj{"type": "array", "items": obj{"$ref": mkRef("", "definitions", leaf)}}
+						}
+						ad.defs["??"] = shape
+						pn := ad.defs["punctNode"].(obj)["properties"].(obj)
+						pn["z1"] = obj{"$ref": mkRef("", "definitions", "??")}
+						pn["z2"] = obj{"$ref": mkRef("", "definitions", "??")}
+						pn["a0"] = obj{"$ref": mkRef("", "definitions", leaf)}
+					}
+				}
 				if g.r.P(60) {
 					g.addRootOp("/punctnode", obj{"$ref": refTo(g.docs[0], ad, "definitions", "punctNode")})
 				} else {
